@@ -62,6 +62,24 @@ let op_of_arg = function
 let string_of_ver (v : ver) =
   "[" ^ String.concat "," (List.map string_of_z v.comps) ^ "]nb" ^ string_of_z v.revn
 
+(* brace tree, prefix form: tree = n item*; item = 0 c | 1 nalts tree* *)
+let parse_tree (a : string) : pat =
+  let toks = ref (List.map int_of_string (String.split_on_char ' ' a)) in
+  let next () = match !toks with x :: r -> toks := r; x | [] -> failwith "tree: eof" in
+  let rec tree () : pat =
+    let n = next () in
+    let rec items k = if k = 0 then PEnd else begin
+      let kind = next () in
+      if kind = 0 then begin let c = next () in let rest = items (k - 1) in PCh (n_of_int c, rest) end
+      else begin
+        let na = next () in
+        let rec alts j = let t = tree () in if j = 1 then AOne t else ACons (t, alts (j - 1)) in
+        let al = alts na in
+        let rest = items (k - 1) in PGrp (al, rest) end
+    end in
+    items n in
+  tree ()
+
 let run (op : string) (args : string list) : string =
   match op, args with
   | "dewey.new", [p] ->
@@ -73,8 +91,31 @@ let run (op : string) (args : string list) : string =
        | Fail _ -> "E" | Panic k -> "PANIC" ^ string_of_int (int_of_nat k) | OutOfFuel -> "FUEL")
   | "spec.verdict", [o; a; b] -> bool_obs (verdict_spec (op_of_arg o) (str_of_arg a) (str_of_arg b))
   | "model.verdict", [o; a; b] -> bool_obs (verdict_m (op_of_arg o) (str_of_arg a) (str_of_arg b))
+  | "class.letter_conflict", [a; b] -> bool_obs (letter_conflict (str_of_arg a) (str_of_arg b))
   | "model.mkv", [a] -> string_of_ver (mkv (str_of_arg a))
   | "spec.mkv", [a] -> string_of_ver (mkv_spec (str_of_arg a))
+  | "pat.new", [p] ->
+      (match pattern_new (str_of_arg p) with
+       | Val _ -> "OK" | Fail EAlternate -> "E:Alternate" | Fail EDewey -> "E:Dewey" | Fail EGlob -> "E:Glob"
+       | Panic k -> "PANIC" ^ string_of_int (int_of_nat k) | OutOfFuel -> "FUEL")
+  | "pat.match", [p; name] ->
+      (match pm (str_of_arg p) (str_of_arg name) with
+       | MErr _ -> "E" | MBool b -> bool_obs b | MPanic -> "PANIC" | MFuel -> "FUEL")
+  | "pat.best", [p; a; b] ->
+      let ps = str_of_arg p in
+      (match pattern_new ps with
+       | Val pt ->
+           (match best2 (fuel_for ps) pt (str_of_arg a) (str_of_arg b) with
+            | Some WNone -> "N" | Some WFirst -> "S:" ^ a | Some WSecond -> "S:" ^ b | None -> "FUEL")
+       | Fail _ -> "E" | Panic _ -> "PANIC" | OutOfFuel -> "FUEL")
+  | "pkgname", [s] ->
+      let pn = pkgname_new (str_of_arg s) in
+      arg_of_str pn.pn_base ^ "|" ^ arg_of_str pn.pn_version ^ "|" ^
+      (match pn.pn_revision with None -> "none" | Some z -> string_of_z z)
+  | "spec.alt", [t; p; name] ->
+      let tr = parse_tree t in
+      if print tr <> str_of_arg p then "TREE-PRINT-MISMATCH"
+      else bool_obs (spec_match tr (str_of_arg name))
   | _ -> "UNKNOWN-OP"
 
 let () =
